@@ -95,6 +95,9 @@ mod inner {
 #[cfg(unix)]
 mod tz_info;
 
+#[cfg(all(unix, chrono_verif))]
+pub use tz_info::verif as __verif_tz;
+
 /// The local timescale.
 ///
 /// Using the [`TimeZone`](./trait.TimeZone.html) methods
